@@ -3,7 +3,7 @@
    andb/orb to && / ||.  N, positive, nat, Z stay the extracted inductive types. *)
 Require Extraction.
 Require Import ExtrOcamlBasic.
-From PPP Require Import Base.Bytes Model.V2 Spec.V2Wire Spec.TlvWalk.
+From PPP Require Import Base.Bytes Model.V2 Model.Builder Spec.V2Wire Spec.TlvWalk Spec.Encoder.
 Extraction Language OCaml.
 Extraction "model.ml"
   lenN
@@ -11,4 +11,6 @@ Extraction "model.ml"
   h_length h_len h_is_empty h_address_family h_address_bytes h_tlv_bytes h_as_bytes h_to_owned
   addresses_len addresses_is_empty family_to_u16 version_or_command protocol_or_family family_code
   is_incomplete2 is_complete2
+  write_to to_bytes brun z_of_digits
+  enc_payload oversize expected_output body in_force payloads wire
   v2_spec v2_possible spec_address_bytes spec_tlv_section walk.
